@@ -165,36 +165,63 @@ class Ctx:
     def __init__(self, tree: ast.Module, sau_tree):
         self.imported = {}      # local name -> function of sorted_array_utils
         self.module_names = set()
+        self.numpy_names = set()   # local names bound to the numpy module
+        self.math_names = set()
         for node in tree.body:
             if isinstance(node, ast.ImportFrom):
                 for al in node.names:
                     local = al.asname or al.name
                     self.module_names.add(local)
+                    self.numpy_names.discard(local)
+                    self.math_names.discard(local)
                     if node.level == 1 and node.module == "sorted_array_utils" and al.name in EXTERN:
                         self.imported[local] = al.name
                     elif local in self.imported:
                         del self.imported[local]
             elif isinstance(node, ast.Import):
                 for al in node.names:
-                    self.module_names.add((al.asname or al.name).split(".")[0])
+                    local = (al.asname or al.name).split(".")[0]
+                    self.module_names.add(local)
+                    self.numpy_names.discard(local)
+                    self.math_names.discard(local)
+                    if al.name == "numpy":
+                        self.numpy_names.add(local)
+                    if al.name == "math":
+                        self.math_names.add(local)
             elif isinstance(node, (ast.FunctionDef, ast.ClassDef)):
                 self.module_names.add(node.name)
                 self.imported.pop(node.name, None)
+                self.numpy_names.discard(node.name)
+                self.math_names.discard(node.name)
             elif isinstance(node, (ast.Assign, ast.AnnAssign, ast.AugAssign)):
                 for n in ast.walk(node):
                     if isinstance(n, ast.Name) and isinstance(n.ctx, ast.Store):
                         self.module_names.add(n.id)
                         self.imported.pop(n.id, None)
+                        self.numpy_names.discard(n.id)
+                        self.math_names.discard(n.id)
         classes = [n for n in tree.body if isinstance(n, ast.ClassDef) and n.name == CLASS]
         self.cls = classes[0] if len(classes) == 1 else None
         self.methods = {}
         self.dup = set()
+        self.cls_problem = None
         if self.cls is not None:
+            if self.cls.decorator_list or self.cls.bases or self.cls.keywords:
+                self.cls_problem = f"class {CLASS} has decorators / base classes"
             for n in self.cls.body:
                 if isinstance(n, ast.FunctionDef):
                     if n.name in self.methods:
                         self.dup.add(n.name)
                     self.methods[n.name] = n
+                elif isinstance(n, ast.Expr) and isinstance(n.value, ast.Constant):
+                    continue
+                else:  # a class-level statement may rebind a method / install `__getattr__` hooks
+                    self.cls_problem = f"class-level statement at interval.py:{n.lineno}"
+            for node in tree.body:  # the class patched from outside (`IntervalArray.__getitem__ = …`, `setattr`)
+                if node is self.cls or isinstance(node, (ast.Import, ast.ImportFrom)):
+                    continue
+                if any(isinstance(x, ast.Name) and x.id == CLASS for x in ast.walk(node)):
+                    self.cls_problem = f"module-level use of {CLASS} at interval.py:{node.lineno}"
         self.sau = {}
         self.sau_problem = None
         if sau_tree is None:
@@ -697,11 +724,11 @@ class FnTranslator:
 
     def call(self, e, env):
         f = e.func
-        if isinstance(f, ast.Attribute) and isinstance(f.value, ast.Name) and f.value.id in NP \
+        if isinstance(f, ast.Attribute) and isinstance(f.value, ast.Name) and f.value.id in self.ctx.numpy_names \
                 and f.value.id not in env:
             return self.np_call(f.attr, e, env)
-        if isinstance(f, ast.Attribute) and isinstance(f.value, ast.Name) and f.value.id == "math" \
-                and "math" not in env and f.attr == "ceil" and len(e.args) == 1 and not e.keywords:
+        if isinstance(f, ast.Attribute) and isinstance(f.value, ast.Name) and f.value.id in self.ctx.math_names \
+                and f.value.id not in env and f.attr == "ceil" and len(e.args) == 1 and not e.keywords:
             return self.ceil_of(e.args[0], env)
         if isinstance(f, ast.Attribute) and isinstance(f.value, ast.Name) and f.value.id == self.self_name \
                 and f.attr in self.ctx.methods:
@@ -833,7 +860,8 @@ class FnTranslator:
                 if e.attr == "array" and "array" in self.ctx.methods and SPEC_OF["array"].gen != self.spec.gen:
                     return env["self.a"] if self.array_is_a() else self.bad_attr(e)
                 raise self.bad(f"attribute self.{e.attr}", e)
-            if isinstance(e.value, ast.Name) and e.value.id in NP and e.value.id not in env and e.attr in ("nan", "NaN", "NAN"):
+            if isinstance(e.value, ast.Name) and e.value.id in self.ctx.numpy_names and e.value.id not in env \
+                    and e.attr in ("nan", "NaN", "NAN"):
                 return Val(SO, "none")
             v = self.ex(e.value, env)
             if e.attr == "T" and v.kind == MO:
@@ -1223,6 +1251,8 @@ def generate(text_interval=None, text_sau=None):
     ctx = Ctx(tree, sau_tree) if tree is not None else None
     if ctx is not None and ctx.cls is None:
         broken = f"class {CLASS} is not defined exactly once in interval.py"
+    elif ctx is not None and ctx.cls_problem:
+        broken = ctx.cls_problem
     if broken is None:
         out += [defaults_def(ctx), ""]
     else:
